@@ -148,7 +148,7 @@ fn step(s: &mut Stream, ws: &[&str]) -> Option<String> {
         }
         ["claim", g, c, idle, force, ids] => {
             let (g, c) = (num(g)?, num(c)?);
-            let idle = match *idle { "0" => 0, "huge" => HUGE, _ => return None };
+            let idle = match *idle { "huge" => HUGE, n => num(n)? };
             let force = match *force { "0" => false, "1" => true, _ => return None };
             match s.claim_messages(&gname(g), &cname(c), idle, &parse_ids(ids)?, force) {
                 Ok(es) => show_ids(&es.iter().map(|e| e.id).collect::<Vec<_>>()),
@@ -163,6 +163,17 @@ fn step(s: &mut Stream, ws: &[&str]) -> Option<String> {
             match s.auto_claim_messages(&gname(g), &cname(c), idle, start, count) {
                 Ok((es, next)) => format!("{} {}", show_id(&next), show_ids(&es.iter().map(|e| e.id).collect::<Vec<_>>())),
                 Err(_) => "nogroup".into(),
+            }
+        }
+        ["pidle", g, id] => {
+            // the idle time XPENDING reports for one pending id (milliseconds; compared through windows only)
+            let (g, id) = (num(g)?, parse_id(id)?);
+            match s.get_consumer_group(&gname(g)) {
+                Some(grp) => match grp.get_pending_range(Some(id), Some(id), 1, None).first() {
+                    Some(e) => format!("{}", e.idle_time),
+                    None => "-".into(),
+                },
+                None => "nogroup".into(),
             }
         }
         ["pending", g] => {
@@ -348,7 +359,7 @@ mod handlers {
             }
             ["claim", g, c, idle, force, ids] => {
                 let (g, c) = (group_of(g)?, cname(num(c)?));
-                let idle = match *idle { "0" => "0", "huge" => "18446744073709551615", _ => return None };
+                let idle = match *idle { "huge" => "18446744073709551615".to_string(), n => format!("{}", num(n)?) };
                 let v = parse_ids(ids)?;
                 if !need_group(&g) { return Some("nogroup".into()); }
                 if v.is_empty() { return None; }
@@ -368,6 +379,18 @@ mod handlers {
                 if !need_group(&g) { return Some("nogroup".into()); }
                 match handle_xautoclaim(st, 0, &frames(&["XAUTOCLAIM", k, &g, &c, idle, start, "COUNT", count, "JUSTID"])) {
                     Ok(RespFrame::Array(Some(r))) if r.len() == 2 => format!("{} {}", text(&r[0])?, id_list(&r[1])?),
+                    _ => "err".into(),
+                }
+            }
+            ["pidle", g, id] => {
+                let g = group_of(g)?;
+                parse_id(id)?;
+                if !need_group(&g) { return Some("nogroup".into()); }
+                match handle_xpending(st, 0, &frames(&["XPENDING", k, &g, id, id, "1"])) {
+                    Ok(RespFrame::Array(Some(rows))) => match rows.first() {
+                        Some(RespFrame::Array(Some(r))) if r.len() == 4 => match r[2] { RespFrame::Integer(n) => format!("{}", n), _ => "err".into() },
+                        _ => "-".into(),
+                    },
                     _ => "err".into(),
                 }
             }
